@@ -29,6 +29,14 @@ class G:
         self.enums = {}       # name -> [values]
         self.lines = []
         self.n = 0
+        # text of a (sub)type -> (zero, amp): `zero` = the type can encode in 0 bits, `amp` = it contains a
+        # list of unbounded/large count whose element can encode in 0 bits (a reader must then allocate
+        # 65536 elements per fragment header octet: inherent to the schema, see DESIGN 4 on @zeroamp)
+        self.info = {"BOOLEAN": (False, False), "NULL": (True, False)}
+
+    def note(self, text, zero, amp=False):
+        self.info[text] = (zero, amp)
+        return text
 
     def fresh(self):
         self.n += 1
@@ -36,6 +44,7 @@ class G:
 
     # ---- primitives ----
     def integer(self):
+        """-> (text, (lo, hi) or None); zero bits iff lo == hi and not extensible (see `prim`)"""
         r = self.r
         k = r.randrange(10)
         if k == 0:
@@ -71,6 +80,22 @@ class G:
         ext = ",..." if r.randrange(3) == 0 else ""
         return f"(SIZE({lo}..{hi}{ext}))"
 
+    @staticmethod
+    def size_info(s):
+        """(can the length be 0 bits AND the count 0 or fixed, is the count attacker-controlled and large)
+        -> (fixed_count or None, unbounded)"""
+        import re
+        if s == "":
+            return None, True
+        m = re.fullmatch(r"\(SIZE\((\d+)\)\)", s)
+        if m:
+            return int(m.group(1)), False
+        m = re.fullmatch(r"\(SIZE\((\d+)\.\.(\d+)(,\.\.\.)?\)\)", s)
+        lo, hi, ext = int(m.group(1)), int(m.group(2)), m.group(3) is not None
+        if ext:
+            return None, True
+        return (lo if lo == hi else None), hi > 1000
+
     def string(self, big_ok=True):
         kind = self.r.choice(STR_KINDS)
         s = self.size(big_ok)
@@ -86,11 +111,13 @@ class G:
             return "NULL", None
         if k <= 5:
             t, rng = self.integer()
+            self.note(t, rng is not None and rng[0] == rng[1] and "MIN" not in t and "MAX" not in t and "..." not in t.replace("..", "", 1))
             if rng is None:
                 return t, str(r.choice([0, 7, 1000]))   # unconstrained INTEGER is u64 in asn1rs
             lo, hi = rng
             return t, str(r.choice([lo, hi, (lo + hi) // 2]) if not t.startswith("INTEGER (MIN") else r.choice([lo, hi]))
         t, kind, s = self.string(big_ok)
+        self.note(t, self.size_info(s)[0] == 0)
         dflt = None
         if kind in SAMPLE and s == "":
             dflt = '"' + r.choice(SAMPLE[kind]) + '"'
@@ -103,9 +130,9 @@ class G:
         vals = [f"v{i}" for i in range(n)]
         k = r.randrange(3)
         if k == 0:
-            return "ENUMERATED { " + ", ".join(vals) + " }", vals
+            return self.note("ENUMERATED { " + ", ".join(vals) + " }", n == 1), vals
         pos = r.randrange(1, n + 1)
-        return "ENUMERATED { " + ", ".join(vals[:pos] + ["..."] + vals[pos:]) + " }", vals
+        return self.note("ENUMERATED { " + ", ".join(vals[:pos] + ["..."] + vals[pos:]) + " }", False), vals
 
     def list_of(self, depth, big_ok=True, no_inline=False):
         r = self.r
@@ -114,7 +141,9 @@ class G:
         # a top-level `X ::= SEQUENCE OF <inline constructed type>` names the inline type X as well (rustc
         # rejects the duplicate): top-level lists take primitive, named or list elements only
         elem, _ = self.field_type(depth + 1, in_list=True, no_inline=no_inline)
-        return f"{head} {s} OF {elem}".replace("  ", " ")
+        fixed, large = self.size_info(s)
+        ez, ea = self.info[elem]
+        return self.note(f"{head} {s} OF {elem}".replace("  ", " "), fixed == 0 or (fixed is not None and ez), ea or (ez and large))
 
     def field_type(self, depth, in_list=False, no_inline=False):
         """-> (text, default literal or None)"""
@@ -149,10 +178,12 @@ class G:
         tagged = head == "SET" and r.randrange(2) == 0
         tags = r.sample(range(0, 40), n)
         parts = []
+        zero, amp = marker is None, False
         for i in range(n):
             if marker == i:
                 parts.append("...")
             t, dflt = self.field_type(depth)
+            zero, amp = zero and self.info[t][0], amp or self.info[t][1]
             after = marker is not None and i >= marker
             k = r.randrange(10)
             if after:
@@ -163,24 +194,27 @@ class G:
             if tagged:
                 cls = r.choice(["", "", "APPLICATION ", "PRIVATE "])
                 tag = f"[{cls}{tags[i]}] "
+            zero = zero and suffix == ""
             parts.append(f"f{i} {tag}{t}{suffix}")
         if marker == n:
             parts.append("...")
-        return head + " { " + ", ".join(parts) + " }"
+        return self.note(head + " { " + ", ".join(parts) + " }", zero, amp)
 
     def choice(self, depth):
         r = self.r
         n = r.choice([1, 2, 2, 3, 4, 5, 9, 17]) if depth == 0 else r.choice([1, 2, 3])
         marker = None if r.randrange(2) == 0 else r.randrange(1, n + 1)
         parts = []
+        zero, amp = marker is None and n == 1, False
         for i in range(n):
             if marker == i:
                 parts.append("...")
             t, _ = self.field_type(depth)
+            zero, amp = zero and self.info[t][0], amp or self.info[t][1]
             parts.append(f"a{i} {t}")
         if marker == n:
             parts.append("...")
-        return "CHOICE { " + ", ".join(parts) + " }"
+        return self.note("CHOICE { " + ", ".join(parts) + " }", zero, amp)
 
     def top(self):
         r = self.r
@@ -199,7 +233,8 @@ class G:
         else:
             body, kind = self.prim()[0], "prim"
         self.named.append((name, kind))
-        self.lines.append(f"  {name} ::= {body}")
+        self.info[name] = self.info[body]
+        self.lines.append(f"  {name} ::= {body}" + ("      -- @zeroamp" if self.info[body][1] else ""))
 
 
 def main():
